@@ -340,6 +340,18 @@ func checkC07(e *Env) {
 			}
 			c.Workers = append(c.Workers, ops)
 		}
+		if ci%2 == 1 {
+			// bystanders: two goroutines that keep encoding from one recycled caller-owned buffer
+			// per size (they rewrite it before every call): memory the caller owns must never
+			// become the place where NewMnemonic collects its bytes
+			for b := 0; b < 2; b++ {
+				var ops []plan.Op
+				for k := 0; k < e.pick(120, 400); k++ {
+					ops = append(ops, plan.Op{I: k, Fn: "enc", L: int64(r.Intn(ref.NLang)), E: hx(r.Bytes(ref.EntSizes[r.Intn(5)])), Arena: true})
+				}
+				c.Workers = append(c.Workers, ops)
+			}
+		}
 		cenv := []string{"VERIF_EARLYRAND=1"}
 		if ci%3 == 2 {
 			// the first crypto/rand read of the process fails: one failed call, then concurrency
@@ -389,6 +401,9 @@ func checkC07(e *Env) {
 				continue
 			}
 			op := &c.Workers[res.G][res.I]
+			if op.Fn != "new" {
+				continue // a bystander
+			}
 			need := int(op.N) + int(op.N)/3
 			if res.Panic != "" || res.Err != nil {
 				viol("a concurrent default-source NewMnemonic failed: "+oneLine(res.Panic+errText(res.Err), 200), res)
